@@ -459,11 +459,27 @@ def w6(F, rep):
     other = [strip_generics(callee_def(t)) for bb, t in b.calls() if not strip_generics(callee_def(t)).endswith("BitWriter::write")
              and not re.search(r"convert::(From::from|Into::into)$", strip_generics(callee_def(t)))
              and not any(m in _AS for m in _mn(t.get("exp")))]          # assertion machinery is looked after by the failure-site rules
+    counted = [o for o in other if re.search(r"(IntoIterator::into_iter|Iterator::next)$", o)]
+    other = [o for o in other if o not in counted]
     if len(ws) != 1 or other:
         rep.add("W6", "pad-replays-captured-bits", False, where, "UNRECOGNISED-IDIOM: expected exactly one BitWriter::write call, found %d (+%s)" % (len(ws), other[:2]))
         return
     wb, wt = ws[0]
     in_loop = any(wb in b.reachable_from(s) for s in b.succ(wb))
+    if in_loop and counted:
+        # ---- counted loop: for i in 0..((8 - (bits_in & 7)) & 7) { write((fill >> i) & 1, 1) } -----------------
+        BI = r"arg<&mut [^>]*BitWriter>\.bits_in"
+        I = r"next\(into_iter\(Range\{K0, .*\}\)\) as Some\.0"
+        vd = flow.describe(b, wt["args"][1])
+        # the range end, described on its own (nested descriptors are abbreviated)
+        ends = [flow.describe(b, s0["r"]["ops"][1]) for x in b.normal_blocks() for s0 in b.stmts(x)
+                if s0["k"] == "assign" and s0["r"].get("k") == "agg" and s0["r"].get("adt") == "std::ops::Range" and flow.const_eval(b, s0["r"]["ops"][0]) == 0]
+        ok_end = len(ends) == 1 and re.match(r"^BitAnd\(Sub\(K8, BitAnd\(%s, K7\)\)(\.0)?, K7\)$" % BI, ends[0]) is not None
+        okc = (flow.const_eval(b, wt["args"][2]) == 1 and ok_end and
+               re.match(r"^(?:\w+::)*(?:from|into)?\(?BitAnd\(Shr\(arg<u8>(#\d+)?, (cast\()?%s\)?\), K1\)\)?$" % I, vd) is not None)
+        rep.add("W6", "pad-replays-captured-bits", okc, where,
+                "counted loop over (8 - bits_in % 8) % 8 positions writing bit i of the captured value" if okc else "counted loop, but not `(fill >> i) & 1` for i in 0..((8 - (bits_in & 7)) & 7): %s" % vd[:200])
+        return
     if in_loop:
         # ---- bit-serial loop -------------------------------------------------------------------
         why = []
